@@ -5,7 +5,7 @@ REQUIRED = ["CifModel.C10_to_double_big", "CifModel.C10_to_double_zero", "CifMod
             "CifModel.C10_rne_is_nearest", "CifModel.C10_syntax", "CifModel.C10_su_scaled", "CifModel.C10_rejects_unchanged", "CifModel.C10_accepts_fields",
             "CifModel.C10_exponent_no_overflow", "CifModel.C10_scale_within_int", "CifModel.C10_cex_scale_exceeds_int_pinned",
             "CifModel.C10_scale_within_int_pinned_refuted",
-            "CifModel.C10_init_correctly_rounded", "CifModel.C10_init_text_roundtrip", "CifModel.C10_autoinit_text_roundtrip", "CifModel.C10_autoinit_scale", "CifModel.C10_msp_exact", "CifModel.C10_limbs_shr_pass", "CifModel.C10_limbs_shl_pass", "CifModel.C10_limbs_round_to_int", "CifModel.C10_limbs_carry_loop", "CifModel.C10_limbs_refine_to_double", "CifModel.C10_limbs_digits_shift", "CifModel.C10_limbs_round_in_limb", "CifModel.C10_limbs_to_double_rne",
+            "CifModel.C10_init_correctly_rounded", "CifModel.C10_init_text_roundtrip", "CifModel.C10_autoinit_text_roundtrip", "CifModel.C10_autoinit_scale", "CifModel.C10_msp_exact", "CifModel.C10_limbs_shr_pass", "CifModel.C10_limbs_shl_pass", "CifModel.C10_limbs_round_to_int", "CifModel.C10_limbs_carry_loop", "CifModel.C10_limbs_refine_to_double", "CifModel.C10_limbs_digits_shift", "CifModel.C10_limbs_round_in_limb", "CifModel.C10_limbs_refine_to_digits", "CifModel.C10_limbs_refine_big", "CifModel.C10_limbs_to_double_rne",
             "CifModel.Lemmas.NumbLimbLink.link_limb_arrays",
             "CifModel.Lemmas.NumbLink.link_chars", "CifModel.Lemmas.NumbLink.link_int", "CifModel.Lemmas.NumbLink.link_float",
             "CifModel.Lemmas.NumbLink.link_bignum", "CifModel.Lemmas.NumbLink.link_misc", "CifModel.Lemmas.NumbLink.link_ldexp"]
@@ -24,23 +24,17 @@ TRUSTED_BASE = [
 ]
 ASSUMPTIONS = [
     "default floating-point rounding mode (FE_TONEAREST); the other branches of round_it are not modelled",
-    "the base-10^9 limb loops of to_double/to_digits perform exact shifts of the fixed-point number (limb level = correspondence only)",
+    "the limb-level model answers `none` where the C would index outside its work array; absence of overrun is observed (ASan), not proved",
     "IEEE 754 binary64 double, 32-bit int (constants re-extracted and link-checked on every run)",
 ]
 PARTIAL = [
-    "C10_limbs_refine_to_digits_full (toDigitsLimbs = toDigitsBig): stated, not proved end-to-end. Proved loop invariants: C10_limbs_shr_pass / "
-    "C10_limbs_shl_pass (exact passes), C10_limbs_round_to_int, C10_limbs_carry_loop. C10_limbs_digits_shift (after storing the fraction and applying "
-    "the exponent the array denotes |d| exactly). C10_limbs_round_in_limb (the rounding step inside a limb with p10 "
-    "leaves p10 * roundHalfEven(N/U) in limbs 0..r). Missing lemmas for digFinish: msd of the shifted array = limbOfPlace(flog10Rat |d|) "
-    "(\"\" vs \"0\" for values rounding to zero); digit generation (limbDigits/countDigits/truncation) = decDigits of the printed number; the "
-    "assembly (10^-scale = rounding unit / 10^9^121, case r < msd). The equality is evaluated on every todig request (driver computes both levels). "
-    "(The to_double half, C10_limbs_refine_to_double, IS proved.)",
 ]
 LEVEL_TEXT = ("Proof at the exact-arithmetic level: the model of to_double() returns the IEEE 754 round-to-nearest-even double for every "
               "digit string of up to 2048 significant digits, leading and trailing zeroes allowed (C10_to_double_big, built on C10_to_double_core, "
               "which holds for every fraction and every admissible shift estimate); round_to_int as written is round-half-even; "
               "init_numb records the correctly rounded digit strings; the saturating exponent accumulation stays below 2^31 and the scale arithmetic of every accepted text of up to a line stays within int (C10_scale_within_int). "
               "Acceptance is proved (C10_syntax: parseNumb accepts exactly NumberSyntax, with the denoted fields). The init/autoinit text round trip is proved (C10_init_text_roundtrip). Autoinit chooses the largest scale with rounded su <= su_rule (C10_autoinit_scale).")
-LEVEL_NOTE = ("Partial parts: the limb level of to_double is proved to refine the exact level (C10_limbs_refine_to_double); for to_digits the limb "
-              "level is modelled, its pass/rounding/carry invariants are proved, the end-to-end equality is checked by execution on every request. No open finding; three findings of this group are fixed (d4436fb, e89d5d7, 0504c8d).")
+LEVEL_NOTE = ("No partial part: the exact-arithmetic level is proved against the specification and the base-10^9 limb level of to_double and to_digits is "
+              "proved to refine it (C10_limbs_refine_big); array overrun of the limb level is `none` in the model and watched for under ASan by the executors. "
+              "No open finding; three findings of this group are fixed (d4436fb, e89d5d7, 0504c8d).")
 TECHNIQUE = "Lean 4 proofs about an executable exact-arithmetic model + differential execution against the real code with exact-rational oracles"
